@@ -47,6 +47,8 @@ def build_ops(rng, spec, budget=96):
 
 
 def run(res, replay=None):
+    # structural tie of the moment assembly (accumulate: centring, permutations; moment: windows) of phasegen/distributions.py: translate the CURRENT source and re-check proofs/GenMomentsEquiv.v
+    import translate_step; (res.proof is not None) and translate_step.run(res.proof, pid=res.pid, tie='moments')
     # structural tie of the propagation loops (_accumulate, cdf) of phasegen/distributions.py: translate the CURRENT source and re-check proofs/GenLoopsEquiv.v
     import translate_step; (res.proof is not None) and translate_step.run(res.proof, pid=res.pid, tie='loops')
     # structural tie of phasegen/rewards.py: translate the CURRENT source and re-check proofs/GenRewardsEquiv.v against it
